@@ -414,6 +414,13 @@ impl Stream {
         data.range_after(after_id, count)
     }
     
+    /// The greatest ID ever added to the stream (0-0 for a new stream); it does
+    /// not go back when the last entries are deleted or trimmed away
+    pub fn last_generated_id(&self) -> StreamId {
+        let data = self.data.lock().unwrap();
+        data.last_id
+    }
+    
     pub fn first_entry(&self) -> Option<StreamEntry> {
         let data = self.data.lock().unwrap();
         data.entries.first().cloned()
